@@ -108,7 +108,7 @@ pub fn c16_invalid_in_invalid_out() {
 #[cfg_attr(kani, kani::proof)]
 #[cfg_attr(kani, kani::unwind(16))]
 pub fn c16_exact_points() {
-    let z = tf(0.0, 0.0);
+    let z = gtf(0.0, 0.0);
     let s = z.sin();
     assert!(s.hi() == 0.0 && s.lo() == 0.0);
     let c = z.cos();
@@ -117,7 +117,7 @@ pub fn c16_exact_points() {
     assert!(t.hi() == 0.0 && t.lo() == 0.0);
     let (s2, c2) = z.sin_cos();
     assert!(s2.hi() == 0.0 && s2.lo() == 0.0 && c2.hi() == 1.0 && c2.lo() == 0.0);
-    let sn = tf(-0.0, 0.0).sin();
+    let sn = gtf(-0.0, 0.0).sin();
     assert!(sn.hi() == 0.0 && sn.lo() == 0.0);
     reached();
 }
@@ -125,7 +125,7 @@ pub fn c16_exact_points() {
 /// quadrant() on concrete arguments: remainder within [-pi/4 - slack, pi/4 + slack] and quadrant in 0..3
 /// (the symbolic claim needs two real double-double divisions and is out of reach; ground sample)
 pub fn quadrant_ground(v: f64) {
-    let x = tf(v, 0.0);
+    let x = gtf(v, 0.0);
     let (s, c) = x.sin_cos();
     assert!(spec_valid(s) && spec_valid(c));
     // sin^2 + cos^2 within 2^-60 of 1 rules out the (NAN, 0) fallback and a wrong kernel pairing
